@@ -32,7 +32,8 @@ def gen_base(chk, i):
     for li, (ncpus, procs) in enumerate(shape):
         ps = []
         for nt in procs:
-            ps.append({"pid": pid, "appid": 1, "threads": list(range(tid, tid + nt))}); tid += nt; pid += 1
+            ps.append({"pid": pid, "appid": 1, "threads": list(range(tid, tid + nt)),
+                       "rank": pid - 20, "nranks": 8}); tid += nt; pid += 1
         looms.append({"name": "n%d" % li, "cpus": [(k, k) for k in range(ncpus)], "procs": ps})
     desc = {"looms": looms}
     enabled = rng.choice(["V", "V6", "VM", "V6DMTPK"])
@@ -172,6 +173,13 @@ def mutations(base):
         meta_mut(key, delkey(["ovni", "lib", "commit"]), "meta-removed", "ovni.lib.commit removed")
         # app_id removed from every thread of the process (=> no carrier left)
         meta_mut(key, delkey(["ovni", "app_id"]), "meta-removed", "ovni.app_id removed from the whole process", also=mates)
+        # rank information (every thread of the base carries rank and nranks)
+        meta_mut(key, delkey(["ovni", "nranks"]), "meta-removed", "ovni.nranks removed (rank present)")
+        meta_mut(key, setkey(["ovni", "nranks"], 0), "meta-altered", "ovni.nranks=0")
+        if mates:
+            meta_mut(key, setkey(["ovni", "nranks"], 9), "meta-altered", "ovni.nranks differs from the sibling threads'")
+        meta_mut(key, setkey(["ovni", "rank"], 8), "meta-altered", "ovni.rank >= nranks")
+        meta_mut(key, setkey(["ovni", "rank"], -1), "meta-altered", "ovni.rank negative")
         meta_mut(key, lambda m: "{ \"version\": 3, \"ovni\": ", "meta-unparsable", "JSON syntax broken")
         meta_mut(key, lambda m: "[1, 2, 3]", "meta-unparsable", "top level is an array")
         meta_mut(key, lambda m: "", "meta-unparsable", "empty file")
